@@ -39,7 +39,12 @@ Clauses of the statement and where they are:
   loop-level model of the kernels with the source's index arithmetic and arbitrary work-array content)
 * repeated generation does not degrade ...................... the theorems above quantify over the call
   history (`fourierCalls`, both modes), the number of refinement steps and the position `c` of the
-  random stream at which a walk starts.
+  random stream at which a walk starts; `twin_surrogates_every_history`, `twins_cache_coherent` (one
+  `Surrogates` object over every history of normalize / embedding setter / twins / twin_surrogates calls)
+* round 3: the neighbour counter in the machine integer of the source (`twins_iff_machine_counter`,
+  `twins_counter_width_exact`, `twins_counter_wrap_loses_twins`), the subscripts of the source
+  (`twins_scan_reads_rows`, `rp_twins_source_subscripts`: asymmetric matrices), whole methods
+  (`twin_surrogates_loop_level_machine`, `rp_twin_surrogates_method`).
 -/
 namespace Pyunicorn.Surrogates
 
@@ -428,8 +433,8 @@ example : Work.Shaped 2 ⟨[[false, true], [true, false]], [-7, 300]⟩ :=
   ⟨rfl, by simp, rfl⟩
 
 /-- lines 173-189: the symmetric zeroing builds the supremum-norm recurrence matrix and the
-decrement bookkeeping of `nR` ends at the row sums (no int16 wrap-around: `n_time < 32768`
-is outside the model) -/
+decrement bookkeeping of `nR` ends at the row sums (counter in `Int`; the machine integer is
+`twins_kernel_machine_counter_state` / `twins_counter_width_exact` below) -/
 theorem twins_kernel_recurrence_and_counts (thr : Rat) (emb : List (List Rat)) :
     recLoop thr emb ⟨List.replicate emb.length (List.replicate emb.length true),
         List.replicate emb.length (emb.length : Int)⟩
